@@ -67,3 +67,25 @@ Lemma atomic_restores_never_deployed_refuted :
     manifest_of 1 w = Some [cmr "a" "v1"] /\
     manifest_of 5 w = Some [cmr "a" "v2"] /\ data_of "ConfigMap/a" w = Some "v2".
 Proof. exists k11_history. eexists. vm_compute. repeat split. Qed.
+
+(* ---- K12: a history limit prunes the only revision the automatic rollback could be aimed at ----
+   the ledger without a deployed revision of [nodep_history]; upgrade --atomic --history-max 2 whose
+   wait fails: Storage.Create prunes revisions 1 and 2 (pruning spares only a DEPLOYED revision),
+   failRelease then finds no previously successful release: 3:failed 4:failed *)
+Definition fl_atomic_max2 : flags := mkFlags true false false false 2 false false false false 0.
+Definition k12_history : list hstep :=
+  [ clean (OpInstall fl0 1 1 [cmr "a" "v1"] []);
+    clean (OpUpgrade fl0 2 2 [cmr "a" "v2"] []);
+    faulted (OpRollback fl0) mf_patch_a;
+    faulted (OpUpgrade fl_atomic_max2 4 4 [cmr "a" "v4"] []) mf_wait ].
+
+Lemma atomic_target_pruned_refuted :
+  exists h w,
+    final h = Some (w, OErr EOtherErr) /\
+    trail h =
+      [ [(1, SDeployed)];
+        [(1, SSuperseded); (2, SDeployed)];
+        [(1, SSuperseded); (2, SSuperseded); (3, SFailed)];
+        [(3, SFailed); (4, SFailed)] ] /\
+    data_of "ConfigMap/a" w = Some "v4".
+Proof. exists k12_history. eexists. vm_compute. repeat split. Qed.
